@@ -133,7 +133,14 @@ def run(project: Project, rep, tier: str):
                         " is not (birth ascending, death descending): among bars with equal birth the longest must come "
                         "first")
     if not key_ok:
-        rep.refuted("LX-SORT", fi, f, "the worklist is never sorted by (birth, −death)", construct=f"{fi.qualname}: sort")
+        other = [n for n in ast.walk(f) if isinstance(n, ast.Call) and (project.resolve(fi.module, n.func, locs) or "").rsplit(".", 1)[-1]
+                 in ("lexsort", "argsort", "sort", "sorted", "heapify", "heappush", "insort", "bisect_left", "bisect_right", "bisect")]
+        callees = [n for n in ast.walk(f) if isinstance(n, ast.Call) and (project.resolve(fi.module, n.func, locs) or "") in project.classes]
+        if other or callees:
+            rep.unmodelled("LX-SORT", fi, (other or callees)[0], "the bars are ordered by a construct this rule does not read "
+                           f"(`{ast.unparse((other or callees)[0])[:60]}`); the order is decided by LX-SWEEP when it can follow it")
+        else:
+            rep.refuted("LX-SORT", fi, f, "the worklist is never sorted by (birth, −death)", construct=f"{fi.qualname}: sort")
     # ---------------- LX-EDGE
     births, deaths = set(), set()
     for n in ast.walk(f):
@@ -459,10 +466,17 @@ def run(project: Project, rep, tier: str):
     infs = [n for n in ast.walk(f) if isinstance(n, ast.If) and "inf" in ast.unparse(n.test)]
     for n in infs[:1]:
         t = n.test
-        if isinstance(t, ast.Compare) and isinstance(t.left, ast.Subscript) and ast.unparse(t.left.slice) == "1":
+        col = None
+        if isinstance(t, ast.Compare) and isinstance(t.left, ast.Subscript):
+            sl = t.left.slice
+            last = sl.elts[-1] if isinstance(sl, ast.Tuple) and sl.elts else sl
+            col = last.value if isinstance(last, ast.Constant) and isinstance(last.value, int) else None
+        if col == 1:
             rep.discharged("LX-DEG", fi, n, "trailing infinite bar is detected on the death column")
-        else:
+        elif col == 0:
             rep.refuted("LX-DEG", fi, n, f"the infinite-bar test `{ast.unparse(t)}` does not look at the death column")
+        else:
+            rep.unmodelled("LX-DEG", fi, n, f"the infinite-bar test `{ast.unparse(t)}`: which column it reads was not recognised")
     # ---------------- LX-SWEEP (bounded): the sweep followed per ordering class of the end-points
     from ..core.report import Report
     from .sweep import check_sweep
